@@ -180,7 +180,7 @@ Proof.
       destruct IH as [IH _]. contradiction. }
     destruct (p_kind p) eqn:K;
       try (inversion H; subst; apply Exists_cons_hd; exact K);
-      (destruct (mem (p_name p) allowed_args); eapply R; [exact H | discriminate]).
+      (destruct (mem (p_name p) allowed_args); apply (R _ _ _ H); discriminate).
 Qed.
 
 (* the two regimes of validate_sig *)
@@ -358,4 +358,710 @@ Proof.
   unfold set_name. split.
   - intros H. destruct (String.eqb_spec attr sname); [contradiction | reflexivity].
   - intros E ->. destruct (String.eqb_spec attr sname); [reflexivity | contradiction].
+Qed.
+
+(* ------------------------------------------------------------------ *)
+(* Dicts                                                                *)
+
+Lemma dict_get_set {V} k (v : V) k' d :
+  dict_get k' (dict_set k v d) = if String.eqb k k' then Some v else dict_get k' d.
+Proof.
+  induction d as [|[k1 v1] r IH]; cbn [dict_set dict_get].
+  - reflexivity.
+  - destruct (String.eqb_spec k1 k) as [E|E]; cbn [dict_get].
+    + subst k1. destruct (String.eqb_spec k k'); reflexivity.
+    + destruct (String.eqb_spec k1 k') as [E'|E'].
+      * subst k1. destruct (String.eqb_spec k k'); [congruence | reflexivity].
+      * exact IH.
+Qed.
+
+Lemma keys_set {V} k (v : V) d :
+  keys (dict_set k v d) = if mem k (keys d) then keys d else keys d ++ [k].
+Proof.
+  unfold keys. induction d as [|[k1 v1] r IH]; cbn [dict_set map mem fst].
+  - reflexivity.
+  - destruct (String.eqb k1 k); cbn [map fst]; [reflexivity|].
+    rewrite IH. destruct (mem k (map fst r)); reflexivity.
+Qed.
+
+Lemma NoDup_keys_set {V} k (v : V) d : NoDup (keys d) -> NoDup (keys (dict_set k v d)).
+Proof.
+  intros H. rewrite keys_set. destruct (mem k (keys d)) eqn:M; [exact H|].
+  apply NoDup_snoc; [exact H | apply mem_false; exact M].
+Qed.
+
+Lemma dict_get_In {V} (d : dict V) k v : dict_get k d = Some v -> In (k, v) d.
+Proof.
+  induction d as [|[k1 v1] r IH]; cbn [dict_get]; [discriminate|].
+  destruct (String.eqb_spec k1 k).
+  - intros H. inversion H; subst. left. reflexivity.
+  - intros H. right. apply IH, H.
+Qed.
+
+Lemma In_dict_get {V} (d : dict V) k v : NoDup (keys d) -> In (k, v) d -> dict_get k d = Some v.
+Proof.
+  unfold keys. induction d as [|[k1 v1] r IH]; cbn [map fst dict_get]; intros N H; [destruct H|].
+  inversion N as [|? ? Hn Hr]; subst.
+  destruct H as [H|H].
+  - inversion H; subst. rewrite String.eqb_refl. reflexivity.
+  - destruct (String.eqb_spec k1 k) as [E|E].
+    + subst. exfalso. apply Hn. apply in_map_iff. exists (k, v). split; [reflexivity | exact H].
+    + apply IH; assumption.
+Qed.
+
+Lemma dict_get_update {V} k (src : list (string * V)) : forall d,
+  dict_get k (dict_update d src) =
+  match lookup_last k src with Some v => Some v | None => dict_get k d end.
+Proof.
+  unfold dict_update. induction src as [|[k1 v1] r IH]; intros d; cbn [fold_left lookup_last fst snd].
+  - reflexivity.
+  - rewrite IH. destruct (lookup_last k r); [reflexivity|].
+    rewrite dict_get_set. destruct (String.eqb k1 k); reflexivity.
+Qed.
+
+Definition add_keys (acc l : list string) : list string :=
+  fold_left (fun acc x => if mem x acc then acc else acc ++ [x]) l acc.
+
+Lemma keys_update {V} (src : list (string * V)) : forall d,
+  keys (dict_update d src) = add_keys (keys d) (keys src).
+Proof.
+  unfold dict_update, add_keys. induction src as [|[k1 v1] r IH]; intros d.
+  - reflexivity.
+  - change (keys ((k1, v1) :: r)) with (k1 :: keys r). cbn [fold_left fst snd].
+    rewrite IH. rewrite keys_set. reflexivity.
+Qed.
+
+Lemma NoDup_keys_update {V} (src : list (string * V)) : forall d,
+  NoDup (keys d) -> NoDup (keys (dict_update d src)).
+Proof.
+  unfold dict_update. induction src as [|[k1 v1] r IH]; intros d H; cbn [fold_left fst snd].
+  - exact H.
+  - apply IH. apply NoDup_keys_set, H.
+Qed.
+
+Lemma add_keys_app acc l1 l2 : add_keys acc (l1 ++ l2) = add_keys (add_keys acc l1) l2.
+Proof. unfold add_keys. apply fold_left_app. Qed.
+
+Lemma add_keys_spec l : forall acc,
+  add_keys acc l = acc ++ filter (fun x => negb (mem x acc)) (dedup_first l).
+Proof.
+  unfold add_keys. induction l as [|a r IH]; intros acc; cbn [fold_left dedup_first filter].
+  - rewrite app_nil_r. reflexivity.
+  - rewrite IH. destruct (mem a acc) eqn:M; cbn [negb].
+    + f_equal. rewrite filter_filter. apply filter_ext. intros x.
+      destruct (mem x acc) eqn:Mx; cbn [negb]; [symmetry; apply andb_false_r|].
+      rewrite andb_true_r. destruct (String.eqb_spec x a); [congruence | reflexivity].
+    + rewrite <- app_assoc. cbn [app]. f_equal. f_equal.
+      rewrite filter_filter. apply filter_ext. intros x.
+      rewrite mem_app. cbn [mem]. rewrite (String.eqb_sym a x).
+      destruct (mem x acc), (String.eqb x a); reflexivity.
+Qed.
+
+Lemma add_keys_nil l : add_keys [] l = dedup_first l.
+Proof.
+  rewrite add_keys_spec. cbn [app]. apply filter_all. reflexivity.
+Qed.
+
+(* ------------------------------------------------------------------ *)
+(* _get_class_members                                                   *)
+
+Lemma class_members_cons b r : class_members (b :: r) = dict_update (class_members r) b.
+Proof. unfold class_members. cbn [rev]. rewrite fold_left_app. reflexivity. Qed.
+
+Theorem class_members_get mro k : dict_get k (class_members mro) = effective mro k.
+Proof.
+  induction mro as [|b r IH]; [reflexivity|].
+  rewrite class_members_cons, dict_get_update, IH. reflexivity.
+Qed.
+
+Lemma class_members_NoDup mro : NoDup (keys (class_members mro)).
+Proof.
+  induction mro as [|b r IH]; [constructor|].
+  rewrite class_members_cons. apply NoDup_keys_update, IH.
+Qed.
+
+Lemma keys_fold_update (L : list (dict member)) : forall d,
+  keys (fold_left dict_update L d) = add_keys (keys d) (flat_map keys L).
+Proof.
+  induction L as [|b r IH]; intros d; cbn [fold_left flat_map].
+  - reflexivity.
+  - rewrite IH, keys_update, add_keys_app. reflexivity.
+Qed.
+
+Theorem class_members_keys mro : keys (class_members mro) = dedup_first (bases_first mro).
+Proof.
+  unfold class_members, bases_first. rewrite keys_fold_update. apply add_keys_nil.
+Qed.
+
+Theorem class_members_In mro k m : In (k, m) (class_members mro) <-> effective mro k = Some m.
+Proof.
+  rewrite <- class_members_get. split.
+  - apply In_dict_get, class_members_NoDup.
+  - apply dict_get_In.
+Qed.
+
+(* ------------------------------------------------------------------ *)
+(* _build_states                                                        *)
+
+Definition is_first_entry (kv : string * member) : bool :=
+  match snd kv with MState s => s_first s | MOther => false end.
+Definition is_default_entry (kv : string * member) : bool :=
+  match snd kv with MState s => s_default s | MOther => false end.
+Definition is_state_entry (kv : string * member) : bool :=
+  match snd kv with MState _ => true | MOther => false end.
+Definition entry_desc (kv : string * member) : string :=
+  match snd kv with MState s => desc_text s | MOther => "" end.
+
+Definition nfirst (ms : dict member) : nat := List.length (filter is_first_entry ms).
+Definition ndefault (ms : dict member) : nat := List.length (filter is_default_entry ms).
+Definition state_keys (ms : dict member) : list string := keys (filter is_state_entry ms).
+Definition state_descs (ms : dict member) : list string := map entry_desc (filter is_state_entry ms).
+Definition b2n (b : bool) : nat := if b then 1 else 0.
+Definition or_head (l : list string) (o : option string) : option string :=
+  match l with [] => o | k :: _ => Some k end.
+
+Lemma build_loop_spec ms : forall st,
+  match build_loop ms st with
+  | Ok st' =>
+      nfirst ms + b2n (is_some (b_first st)) <= 1 /\
+      ndefault ms + b2n (is_some (b_default st)) <= 1 /\
+      b_names st' = b_names st ++ state_keys ms /\
+      b_descs st' = b_descs st ++ state_descs ms /\
+      b_first st' = or_head (keys (filter is_first_entry ms)) (b_first st) /\
+      b_default st' = or_head (keys (filter is_default_entry ms)) (b_default st)
+  | Err MultipleFirst => 2 <= nfirst ms + b2n (is_some (b_first st))
+  | Err MultipleDefault => 2 <= ndefault ms + b2n (is_some (b_default st))
+  | Err NoFirst => False
+  end.
+Proof.
+  unfold nfirst, ndefault, state_keys, state_descs, keys.
+  induction ms as [|[k m] r IH]; intros st.
+  - cbn. rewrite !app_nil_r. destruct (b_first st), (b_default st); cbn; repeat split; lia.
+  - destruct m as [s|].
+    2:{ cbn [build_loop filter is_first_entry is_default_entry is_state_entry snd]. apply IH. }
+    cbn [build_loop filter is_first_entry is_default_entry is_state_entry snd].
+    destruct (s_first s) eqn:F; destruct (is_some (b_first st)) eqn:HF; cbn [andb].
+    + (* second first state *)
+      cbn [List.length b2n]. lia.
+    + destruct (s_default s) eqn:D.
+      * destruct (is_some (b_default st)) eqn:HD.
+        -- cbn [List.length b2n]. lia.
+        -- match goal with |- context [build_loop r ?st1] => specialize (IH st1) end.
+           destruct (build_loop r _) as [st'|[]]; cbn [b_first b_default b_names b_descs is_some b2n] in IH |- *;
+             cbn [List.length map fst or_head entry_desc snd]; try lia; try exact IH.
+           destruct IH as (A & B & C & E & G & H).
+           assert (Z1 : List.length (filter is_first_entry r) = 0) by lia.
+           assert (Z2 : List.length (filter is_default_entry r) = 0) by lia.
+           apply length_zero_iff_nil in Z1. apply length_zero_iff_nil in Z2.
+           rewrite Z1 in *. rewrite Z2 in *. cbn [map or_head List.length] in *.
+           rewrite <- !app_assoc in C, E. cbn [app] in C, E.
+           repeat split; try assumption; try lia.
+      * match goal with |- context [build_loop r ?st1] => specialize (IH st1) end.
+        destruct (build_loop r _) as [st'|[]]; cbn [b_first b_default b_names b_descs is_some b2n] in IH |- *;
+          cbn [List.length map fst or_head entry_desc snd]; try lia; try exact IH.
+        destruct IH as (A & B & C & E & G & H).
+        assert (Z1 : List.length (filter is_first_entry r) = 0) by lia.
+        apply length_zero_iff_nil in Z1.
+        rewrite Z1 in *. cbn [map or_head List.length] in *.
+        rewrite <- !app_assoc in C, E. cbn [app] in C, E.
+        repeat split; try assumption; try lia.
+    + destruct (s_default s) eqn:D.
+      * destruct (is_some (b_default st)) eqn:HD.
+        -- cbn [List.length b2n]. lia.
+        -- match goal with |- context [build_loop r ?st1] => specialize (IH st1) end.
+           cbn [b_first b_default b_names b_descs] in IH. rewrite ?HF, ?HD in IH.
+           destruct (build_loop r _) as [st'|[]]; cbn [b_first b_default b_names b_descs is_some b2n] in IH |- *;
+             cbn [List.length map fst or_head entry_desc snd]; try lia; try exact IH.
+           destruct IH as (A & B & C & E & G & H).
+           assert (Z2 : List.length (filter is_default_entry r) = 0) by lia.
+           apply length_zero_iff_nil in Z2.
+           rewrite Z2 in *. cbn [map or_head List.length] in *.
+           rewrite <- !app_assoc in C, E. cbn [app] in C, E.
+           repeat split; try assumption; try lia.
+      * match goal with |- context [build_loop r ?st1] => specialize (IH st1) end.
+        cbn [b_first b_default b_names b_descs] in IH. rewrite ?HF, ?HD in IH.
+        destruct (build_loop r _) as [st'|[]]; cbn [b_first b_default b_names b_descs is_some b2n] in IH |- *;
+          cbn [List.length map fst or_head entry_desc snd]; try lia; try exact IH.
+        destruct IH as (A & B & C & E & G & H).
+        rewrite <- !app_assoc in C, E. cbn [app] in C, E.
+        repeat split; try assumption; try lia.
+    + destruct (s_default s) eqn:D.
+      * destruct (is_some (b_default st)) eqn:HD.
+        -- cbn [List.length b2n]. lia.
+        -- match goal with |- context [build_loop r ?st1] => specialize (IH st1) end.
+           cbn [b_first b_default b_names b_descs] in IH. rewrite ?HF, ?HD in IH.
+           destruct (build_loop r _) as [st'|[]]; cbn [b_first b_default b_names b_descs is_some b2n] in IH |- *;
+             cbn [List.length map fst or_head entry_desc snd]; try lia; try exact IH.
+           destruct IH as (A & B & C & E & G & H).
+           assert (Z2 : List.length (filter is_default_entry r) = 0) by lia.
+           apply length_zero_iff_nil in Z2.
+           rewrite Z2 in *. cbn [map or_head List.length] in *.
+           rewrite <- !app_assoc in C, E. cbn [app] in C, E.
+           repeat split; try assumption; try lia.
+      * match goal with |- context [build_loop r ?st1] => specialize (IH st1) end.
+        cbn [b_first b_default b_names b_descs] in IH. rewrite ?HF, ?HD in IH.
+        destruct (build_loop r _) as [st'|[]]; cbn [b_first b_default b_names b_descs is_some b2n] in IH |- *;
+          cbn [List.length map fst or_head entry_desc snd]; try lia; try exact IH.
+        destruct IH as (A & B & C & E & G & H).
+        rewrite <- !app_assoc in C, E. cbn [app] in C, E.
+        repeat split; try assumption; try lia.
+Qed.
+
+Definition init_bstate : bstate :=
+  {| b_first := None; b_default := None; b_names := []; b_descs := [] |}.
+
+(* what every outcome of build_states says about the merged member dict *)
+Lemma build_states_counts mro :
+  let ms := class_members mro in
+  match build_states mro with
+  | Ok r => filter is_first_entry ms <> [] /\ nfirst ms = 1 /\ ndefault ms <= 1 /\
+            r_names r = state_keys ms /\ r_descs r = state_descs ms /\
+            keys (filter is_first_entry ms) = [r_first r] /\
+            r_default r = or_head (keys (filter is_default_entry ms)) None
+  | Err NoFirst => nfirst ms = 0 /\ ndefault ms <= 1
+  | Err MultipleFirst => 2 <= nfirst ms
+  | Err MultipleDefault => 2 <= ndefault ms
+  end.
+Proof.
+  intros ms. unfold build_states. fold ms. fold init_bstate.
+  pose proof (build_loop_spec ms init_bstate) as S.
+  destruct (build_loop ms init_bstate) as [st'|[]]; cbn [init_bstate b_first b_default b_names b_descs is_some b2n app] in S;
+    try lia; try contradiction.
+  destruct S as (A & B & C & E & G & H).
+  unfold nfirst in *. destruct (b_first st') as [f|] eqn:F.
+  - destruct (filter is_first_entry ms) as [|x l] eqn:Q; cbn [keys map or_head] in G; [discriminate|].
+    cbn [List.length] in A. assert (L : l = []) by (apply length_zero_iff_nil; lia). subst l.
+    inversion G; subst. cbn [r_first r_default r_names r_descs List.length map keys].
+    repeat split; try assumption; try lia. discriminate.
+  - destruct (filter is_first_entry ms) as [|x l] eqn:Q; cbn [keys map or_head] in G; [|discriminate].
+    cbn [List.length]. split; lia.
+Qed.
+
+Lemma NoDup_keys_filter {V} (p : string * V -> bool) (d : dict V) :
+  NoDup (keys d) -> NoDup (keys (filter p d)).
+Proof.
+  unfold keys. induction d as [|a r IH]; cbn [filter map]; intros N; [constructor|].
+  inversion N as [|? ? Hn Hr]; subst.
+  destruct (p a); cbn [map]; [|apply IH, Hr].
+  constructor; [|apply IH, Hr].
+  intros H. apply Hn. apply in_map_iff in H. destruct H as [x [E Hx]].
+  apply filter_In in Hx. apply in_map_iff. exists x. split; [exact E | apply Hx].
+Qed.
+
+Lemma two_in_filter {V} (p : string * V -> bool) (d : dict V) :
+  NoDup (keys d) -> 2 <= List.length (filter p d) ->
+  exists x y, In x d /\ In y d /\ p x = true /\ p y = true /\ fst x <> fst y.
+Proof.
+  intros N L. pose proof (NoDup_keys_filter p d N) as NF.
+  destruct (filter p d) as [|x [|y l]] eqn:Q; cbn [List.length] in L; try lia.
+  assert (Hx : In x (filter p d)) by (rewrite Q; left; reflexivity).
+  assert (Hy : In y (filter p d)) by (rewrite Q; right; left; reflexivity).
+  apply filter_In in Hx. apply filter_In in Hy.
+  exists x, y. repeat split; try tauto.
+  unfold keys in NF. cbn [map] in NF. inversion NF as [|? ? Hn _]; subst.
+  intros E. apply Hn. left. symmetry. exact E.
+Qed.
+
+Lemma first_in_entry mro n :
+  first_in mro n <-> exists kv, In kv (class_members mro) /\ is_first_entry kv = true /\ fst kv = n.
+Proof.
+  unfold first_in, eff_state. split.
+  - intros [s [E F]]. exists (n, MState s). rewrite class_members_In. auto.
+  - intros [[k m] [I [F E]]]. cbn [fst] in E. subst k. unfold is_first_entry in F. cbn [snd] in F.
+    destruct m as [s|]; [|discriminate]. exists s. rewrite <- class_members_In. auto.
+Qed.
+
+Lemma default_in_entry mro n :
+  default_in mro n <-> exists kv, In kv (class_members mro) /\ is_default_entry kv = true /\ fst kv = n.
+Proof.
+  unfold default_in, eff_state. split.
+  - intros [s [E F]]. exists (n, MState s). rewrite class_members_In. auto.
+  - intros [[k m] [I [F E]]]. cbn [fst] in E. subst k. unfold is_default_entry in F. cbn [snd] in F.
+    destruct m as [s|]; [|discriminate]. exists s. rewrite <- class_members_In. auto.
+Qed.
+
+Lemma nfirst_zero mro : nfirst (class_members mro) = 0 -> forall n, ~ first_in mro n.
+Proof.
+  intros Z n H. apply first_in_entry in H. destruct H as [kv [I [F _]]].
+  unfold nfirst in Z. apply length_zero_iff_nil in Z.
+  rewrite filter_nil_iff in Z. rewrite (Z kv I) in F. discriminate.
+Qed.
+
+Lemma nfirst_two mro : 2 <= nfirst (class_members mro) ->
+  exists n1 n2, n1 <> n2 /\ first_in mro n1 /\ first_in mro n2.
+Proof.
+  intros L. destruct (two_in_filter _ _ (class_members_NoDup mro) L) as [x [y (Ix & Iy & Px & Py & N)]].
+  exists (fst x), (fst y). split; [exact N|].
+  split; apply first_in_entry; eexists; eauto.
+Qed.
+
+Lemma ndefault_two mro : 2 <= ndefault (class_members mro) ->
+  exists n1 n2, n1 <> n2 /\ default_in mro n1 /\ default_in mro n2.
+Proof.
+  intros L. destruct (two_in_filter _ _ (class_members_NoDup mro) L) as [x [y (Ix & Iy & Px & Py & N)]].
+  exists (fst x), (fst y). split; [exact N|].
+  split; apply default_in_entry; eexists; eauto.
+Qed.
+
+Lemma nfirst_le1 mro : nfirst (class_members mro) <= 1 ->
+  forall n1 n2, first_in mro n1 -> first_in mro n2 -> n1 = n2.
+Proof.
+  intros L n1 n2 H1 H2. apply first_in_entry in H1, H2.
+  destruct H1 as [x [Ix [Px <-]]], H2 as [y [Iy [Py <-]]].
+  f_equal. apply (length_le1 _ x y L); apply filter_In; auto.
+Qed.
+
+Lemma ndefault_le1 mro : ndefault (class_members mro) <= 1 -> at_most_one_default mro.
+Proof.
+  intros L n1 n2 H1 H2. apply default_in_entry in H1, H2.
+  destruct H1 as [x [Ix [Px <-]]], H2 as [y [Iy [Py <-]]].
+  f_equal. apply (length_le1 _ x y L); apply filter_In; auto.
+Qed.
+
+Theorem build_err_sound mro e : build_states mro = Err e ->
+  match e with
+  | NoFirst => forall n, ~ first_in mro n
+  | MultipleFirst => exists n1 n2, n1 <> n2 /\ first_in mro n1 /\ first_in mro n2
+  | MultipleDefault => exists n1 n2, n1 <> n2 /\ default_in mro n1 /\ default_in mro n2
+  end.
+Proof.
+  intros H. pose proof (build_states_counts mro) as S. cbv zeta in S. rewrite H in S.
+  destruct e.
+  - apply nfirst_zero, S.
+  - apply nfirst_two, S.
+  - apply ndefault_two, S.
+Qed.
+
+Theorem build_ok_sound mro r : build_states mro = Ok r ->
+  first_in mro (r_first r) /\ (forall n, first_in mro n -> n = r_first r) /\
+  at_most_one_default mro /\
+  match r_default r with
+  | Some d => default_in mro d
+  | None => forall n, ~ default_in mro n
+  end.
+Proof.
+  intros H. pose proof (build_states_counts mro) as S. cbv zeta in S. rewrite H in S.
+  destruct S as (NE & A & B & _ & _ & K & D).
+  assert (F : first_in mro (r_first r)).
+  { apply first_in_entry.
+    destruct (filter is_first_entry (class_members mro)) as [|x l] eqn:Q; [congruence|].
+    assert (Hx : In x (filter is_first_entry (class_members mro))) by (rewrite Q; left; reflexivity).
+    apply filter_In in Hx. exists x. cbn [keys map] in K. inversion K. tauto. }
+  split; [exact F|]. split.
+  - intros n Hn. apply (nfirst_le1 mro); [lia | exact Hn | exact F].
+  - split; [apply ndefault_le1, B|].
+    destruct (filter is_default_entry (class_members mro)) as [|x l] eqn:Q; cbn [keys map or_head] in D; rewrite D.
+    + intros n Hn. apply default_in_entry in Hn. destruct Hn as [kv [I [P _]]].
+      rewrite filter_nil_iff in Q. rewrite (Q kv I) in P. discriminate.
+    + assert (Hx : In x (filter is_default_entry (class_members mro))) by (rewrite Q; left; reflexivity).
+      apply filter_In in Hx. apply default_in_entry. exists x. tauto.
+Qed.
+
+Theorem build_ok_iff mro :
+  (exists r, build_states mro = Ok r) <-> exactly_one_first mro /\ at_most_one_default mro.
+Proof.
+  split.
+  - intros [r H]. destruct (build_ok_sound mro r H) as (F & U & D & _).
+    split; [|exact D]. exists (r_first r). split; [exact F | exact U].
+  - intros [[n [F U]] D]. destruct (build_states mro) as [r|e] eqn:H; [eexists; reflexivity|].
+    exfalso. pose proof (build_err_sound mro e H) as S. destruct e.
+    + exact (S n F).
+    + destruct S as [n1 [n2 (N & F1 & F2)]]. apply N. rewrite (U n1 F1), (U n2 F2). reflexivity.
+    + destruct S as [n1 [n2 (N & D1 & D2)]]. apply N. apply D; assumption.
+Qed.
+
+(* ---- state_names / state_descriptions ------------------------------ *)
+
+Lemma state_keys_filter (d l : dict member) :
+  (forall kv, In kv l -> dict_get (fst kv) d = Some (snd kv)) ->
+  state_keys l = filter (fun k => is_state_opt (dict_get k d)) (keys l) /\
+  state_descs l = map (fun k => desc_opt (dict_get k d)) (state_keys l).
+Proof.
+  unfold state_keys, state_descs, keys.
+  induction l as [|[k m] r IH]; intros H; [split; reflexivity|].
+  destruct IH as [IH1 IH2]; [intros kv Hkv; apply H; right; exact Hkv|].
+  pose proof (H (k, m) (or_introl eq_refl)) as Hk. cbn [fst snd] in Hk.
+  cbn [filter map fst]. rewrite Hk.
+  destruct m as [s|]; cbn [is_state_opt].
+  - change (is_state_entry (k, MState s)) with true. cbn [map fst]. rewrite Hk.
+    cbn [desc_opt entry_desc snd].
+    split; f_equal; assumption.
+  - split; assumption.
+Qed.
+
+Theorem names_exact mro r : build_states mro = Ok r ->
+  (forall n, In n (r_names r) <-> exists s, eff_state mro n s) /\
+  NoDup (r_names r) /\
+  r_names r = filter (fun n => is_state_opt (effective mro n)) (dedup_first (bases_first mro)) /\
+  r_descs r = map (fun n => desc_opt (effective mro n)) (r_names r).
+Proof.
+  intros H. pose proof (build_states_counts mro) as S. cbv zeta in S. rewrite H in S.
+  destruct S as (_ & _ & _ & Nm & Ds & _ & _).
+  pose proof (class_members_NoDup mro) as ND.
+  destruct (state_keys_filter (class_members mro) (class_members mro)) as [K1 K2].
+  { intros [k m] I. apply In_dict_get; assumption. }
+  rewrite Nm, Ds. repeat split.
+  - intros I. unfold state_keys, keys in I. apply in_map_iff in I. destruct I as [[k m] [E I]].
+    apply filter_In in I. destruct I as [I P]. cbn [fst] in E. subst k.
+    unfold is_state_entry in P. cbn [snd] in P. destruct m as [s|]; [|discriminate].
+    exists s. apply class_members_In. exact I.
+  - intros [s E]. apply class_members_In in E. unfold state_keys, keys. apply in_map_iff.
+    exists (n, MState s). split; [reflexivity|]. apply filter_In. split; [exact E | reflexivity].
+  - apply NoDup_keys_filter, ND.
+  - rewrite K1, class_members_keys. apply filter_ext. intros k. rewrite class_members_get. reflexivity.
+  - rewrite K2. apply map_ext. intros k. rewrite class_members_get. reflexivity.
+Qed.
+
+Corollary descs_aligned mro r : build_states mro = Ok r ->
+  List.length (r_descs r) = List.length (r_names r) /\
+  forall i, i < List.length (r_names r) ->
+    nth i (r_descs r) "" = desc_opt (effective mro (nth i (r_names r) "")).
+Proof.
+  intros H. destruct (names_exact mro r H) as (_ & _ & _ & D). rewrite D. split.
+  - apply map_length.
+  - intros i Hi.
+    rewrite (nth_indep _ "" (desc_opt (effective mro "")))
+      by (rewrite map_length; exact Hi).
+    apply (map_nth (fun n => desc_opt (effective mro n))).
+Qed.
+
+(* ------------------------------------------------------------------ *)
+(* The class statement                                                  *)
+
+Definition member_ok (reserved : list string) (m : smember) : Prop :=
+  exists v, eval_member reserved m = Ok v.
+
+Lemma eval_body_ok reserved b : forall ns0 ns, eval_body reserved b ns0 = Ok ns ->
+  (forall k m, In (k, m) b -> member_ok reserved m) /\
+  (forall k, dict_get k ns =
+             match lookup_last k b with
+             | Some m => match eval_member reserved m with Ok v => Some v | Err _ => None end
+             | None => dict_get k ns0
+             end) /\
+  (NoDup (keys ns0) -> NoDup (keys ns)).
+Proof.
+  induction b as [|[k1 m1] r IH]; intros ns0 ns H; cbn [eval_body] in H.
+  - inversion H; subst. repeat split; [intros k m [] | auto].
+  - destruct (eval_member reserved m1) as [v1|e1] eqn:E1; [|discriminate].
+    destruct (IH _ _ H) as (A & B & C). repeat split.
+    + intros k m [I|I]; [inversion I; subst; exists v1; exact E1 | exact (A k m I)].
+    + intros k. rewrite B. cbn [lookup_last]. destruct (lookup_last k r); [reflexivity|].
+      rewrite dict_get_set. destruct (String.eqb k1 k); [rewrite E1|]; reflexivity.
+    + intros N. apply C, NoDup_keys_set, N.
+Qed.
+
+Lemma eval_body_total reserved b : forall ns0,
+  (forall k m, In (k, m) b -> member_ok reserved m) -> exists ns, eval_body reserved b ns0 = Ok ns.
+Proof.
+  induction b as [|[k1 m1] r IH]; intros ns0 H; cbn [eval_body].
+  - eexists; reflexivity.
+  - destruct (H k1 m1 (or_introl eq_refl)) as [v1 E1]. rewrite E1.
+    apply IH. intros k m I. apply (H k m). right. exact I.
+Qed.
+
+Lemma set_names_ok_iff osm ns :
+  set_names osm ns = Ok tt <-> forall k s, In (k, MState s) ns -> k = s_name s /\ osm = true.
+Proof.
+  induction ns as [|[k m] r IH]; cbn [set_names].
+  - split; [intros _ k s [] | reflexivity].
+  - destruct m as [s|].
+    + destruct (set_name osm k (s_name s)) as [[]|e] eqn:E.
+      * rewrite IH. apply set_name_ok_iff in E. split.
+        -- intros H k' s' [I|I]; [inversion I; subst; exact E | exact (H k' s' I)].
+        -- intros H k' s' I. apply (H k' s'). right. exact I.
+      * split; [discriminate|]. intros H.
+        destruct (H k s (or_introl eq_refl)) as [E1 E2].
+        assert (X : set_name osm k (s_name s) = Ok tt) by (apply set_name_ok_iff; auto).
+        congruence.
+    + rewrite IH. split.
+      * intros H k' s' [I|I]; [discriminate | exact (H k' s' I)].
+      * intros H k' s' I. apply (H k' s'). right. exact I.
+Qed.
+
+Lemma set_names_err osm ns e : set_names osm ns = Err e ->
+  (e = EAlias /\ exists k s, In (k, MState s) ns /\ k <> s_name s) \/
+  (e = ENotStateMachine /\ osm = false /\ exists k s, In (k, MState s) ns).
+Proof.
+  induction ns as [|[k m] r IH]; cbn [set_names]; [discriminate|].
+  assert (R : set_names osm r = Err e ->
+     (e = EAlias /\ exists k0 s, In (k0, MState s) ((k, m) :: r) /\ k0 <> s_name s) \/
+     (e = ENotStateMachine /\ osm = false /\ exists k0 s, In (k0, MState s) ((k, m) :: r))).
+  { intros H. destruct (IH H) as [[E [k0 [s [I N]]]]|[E [O [k0 [s I]]]]].
+    - left. split; [exact E|]. exists k0, s. split; [right; exact I | exact N].
+    - right. split; [exact E|]. split; [exact O|]. exists k0, s. right. exact I. }
+  destruct m as [s|]; [|exact R].
+  unfold set_name. destruct (String.eqb_spec k (s_name s)) as [E|E]; cbn [negb].
+  - destruct osm; cbn [negb]; [exact R|].
+    intros H. inversion H; subst. right. split; [reflexivity|]. split; [reflexivity|].
+    exists (s_name s), s. left. reflexivity.
+  - intros H. inversion H; subst. left. split; [reflexivity|].
+    exists k, s. split; [left; reflexivity | exact E].
+Qed.
+
+Lemma member_ok_iff reserved m :
+  member_ok reserved m <->
+  match m with
+  | SState d => ~ In (d_fname d) reserved /\ ~ sig_faulty (d_params d)
+  | SOther => True
+  end.
+Proof.
+  unfold member_ok. destruct m as [d|]; cbn [eval_member].
+  - rewrite <- construct_ok_iff. split.
+    + intros [v H]. destruct (construct reserved d) as [s|e]; [exists s; reflexivity | discriminate].
+    + intros [s H]. rewrite H. eexists; reflexivity.
+  - split; [trivial | intros _; eexists; reflexivity].
+Qed.
+
+Theorem define_ok_iff reserved osm b :
+  (exists ns, define_class reserved osm b = Ok ns) <->
+  (forall k d, In (k, SState d) b -> ~ In (d_fname d) reserved /\ ~ sig_faulty (d_params d)) /\
+  (forall k d, binds_state b k d -> k = d_fname d /\ osm = true).
+Proof.
+  unfold define_class, binds_state. split.
+  - intros [ns H].
+    destruct (eval_body reserved b []) as [ns'|e] eqn:E; [|discriminate].
+    destruct (set_names osm ns') as [[]|e] eqn:S; [|discriminate].
+    destruct (eval_body_ok reserved b [] ns' E) as (A & B & C).
+    split.
+    + intros k d I. apply (member_ok_iff reserved (SState d)). exact (A k _ I).
+    + intros k d L. specialize (B k). rewrite L in B. cbn [eval_member] in B.
+      destruct (construct reserved d) as [s|e] eqn:K.
+      * apply dict_get_In in B. rewrite set_names_ok_iff in S.
+        destruct (S k s B) as [E1 E2]. destruct (construct_ok reserved d s K) as (_ & _ & Nm & _).
+        split; congruence.
+      * exfalso. assert (I : exists k', In (k', SState d) b).
+        { clear - L. induction b as [|[k1 m1] r IH]; cbn [lookup_last] in L; [discriminate|].
+          destruct (lookup_last k r) eqn:Q.
+          - destruct (IH L) as [k' I]. exists k'. right. exact I.
+          - destruct (String.eqb k1 k); [|discriminate]. inversion L; subst.
+            exists k1. left. reflexivity. }
+        destruct I as [k' I]. destruct (A k' _ I) as [v V]. cbn [eval_member] in V.
+        rewrite K in V. discriminate.
+  - intros [A B].
+    destruct (eval_body_total reserved b []) as [ns E].
+    { intros k m I. apply member_ok_iff. destruct m as [d|]; [exact (A k d I) | exact Logic.I]. }
+    rewrite E. destruct (eval_body_ok reserved b [] ns E) as (_ & G & N).
+    assert (S : set_names osm ns = Ok tt).
+    { apply set_names_ok_iff. intros k s I.
+      apply In_dict_get in I; [|apply N; constructor].
+      rewrite G in I. destruct (lookup_last k b) as [m|] eqn:L; [|discriminate].
+      destruct m as [d|]; cbn [eval_member] in I.
+      - destruct (construct reserved d) as [s'|e] eqn:K; [|discriminate].
+        inversion I; subst s'. destruct (construct_ok reserved d s K) as (_ & _ & Nm & _).
+        destruct (B k d L) as [E1 E2]. split; congruence.
+      - discriminate. }
+    rewrite S. exists ns. reflexivity.
+Qed.
+
+(* the property's wording: a state bound under another name, or in a class
+   that is not a StateMachine, makes the class statement raise *)
+Theorem alias_owner_rejected reserved osm b k d :
+  binds_state b k d -> k <> d_fname d \/ osm = false ->
+  exists e, define_class reserved osm b = Err e.
+Proof.
+  intros L H. destruct (define_class reserved osm b) as [ns|e] eqn:D; [|exists e; reflexivity].
+  exfalso. assert (X : exists ns, define_class reserved osm b = Ok ns) by (exists ns; exact D).
+  apply define_ok_iff in X. destruct X as [_ X]. destruct (X k d L) as [E1 E2].
+  destruct H; congruence.
+Qed.
+
+(* ... and with which exception, when every decorator call itself succeeded *)
+Theorem alias_owner_error reserved osm b ns e :
+  eval_body reserved b [] = Ok ns -> define_class reserved osm b = Err e ->
+  (e = EAlias /\ exists k d, binds_state b k d /\ k <> d_fname d) \/
+  (e = ENotStateMachine /\ osm = false /\ exists k d, binds_state b k d).
+Proof.
+  intros E D. unfold define_class in D. rewrite E in D.
+  destruct (set_names osm ns) as [[]|e'] eqn:S; [discriminate|]. inversion D; subst e'.
+  destruct (eval_body_ok reserved b [] ns E) as (_ & G & N).
+  assert (T : forall k s, In (k, MState s) ns -> exists d, binds_state b k d /\ s_name s = d_fname d).
+  { intros k s I. apply In_dict_get in I; [|apply N; constructor].
+    rewrite G in I. unfold binds_state. destruct (lookup_last k b) as [m|]; [|discriminate].
+    destruct m as [d|]; cbn [eval_member] in I; [|discriminate].
+    destruct (construct reserved d) as [s'|e'] eqn:K; [|discriminate]. inversion I; subst s'.
+    exists d. split; [reflexivity|]. apply (construct_ok reserved d s K). }
+  destruct (set_names_err osm ns e S) as [[E1 [k [s [I Nq]]]]|[E1 [O [k [s I]]]]].
+  - left. split; [exact E1|]. destruct (T k s I) as [d [Bd Nm]]. exists k, d. split; [exact Bd | congruence].
+  - right. split; [exact E1|]. split; [exact O|]. destruct (T k s I) as [d [Bd _]]. exists k, d. exact Bd.
+Qed.
+
+(* ------------------------------------------------------------------ *)
+(* A module of several class statements                                 *)
+
+Lemma define_from_spec reserved cs : forall idx known dicts,
+  match define_from reserved idx cs known dicts with
+  | Ok ds =>
+      exists news, ds = dicts ++ news /\ List.length news = List.length cs /\
+      forall i c, nth_error cs i = Some c ->
+        exists ns, define_class reserved (nth (List.length known + i)
+                      (fold_left (fun kn c => kn ++ [is_sm kn (c_bases c)]) cs known) false)
+                      (c_body c) = Ok ns /\
+                   nth_error news i = Some (ns ++ map (fun k => (k, MOther)) (c_extra c))
+  | Err (j, e) =>
+      exists i c, j = idx + i /\ nth_error cs i = Some c /\
+        define_class reserved (nth (List.length known + i)
+            (fold_left (fun kn c => kn ++ [is_sm kn (c_bases c)]) cs known) false)
+            (c_body c) = Err e /\
+        forall i' c', i' < i -> nth_error cs i' = Some c' ->
+          exists ns, define_class reserved (nth (List.length known + i')
+            (fold_left (fun kn c => kn ++ [is_sm kn (c_bases c)]) cs known) false)
+            (c_body c') = Ok ns
+  end.
+Proof.
+  assert (FL : forall cs known i, i < List.length known ->
+     nth i (fold_left (fun kn c => kn ++ [is_sm kn (c_bases c)]) cs known) false = nth i known false).
+  { clear. induction cs as [|c r IH]; intros known i Hi; cbn [fold_left]; [reflexivity|].
+    rewrite IH by (rewrite app_length; cbn; lia). apply app_nth1. exact Hi. }
+  induction cs as [|c r IH]; intros idx known dicts; cbn [define_from].
+  - exists []. rewrite app_nil_r. repeat split. intros i c H. destruct i; discriminate.
+  - cbn [fold_left].
+    assert (F0 : nth (List.length known + 0)
+               (fold_left (fun kn c => kn ++ [is_sm kn (c_bases c)]) r (known ++ [is_sm known (c_bases c)])) false
+               = is_sm known (c_bases c)).
+    { rewrite FL by (rewrite app_length; cbn; lia).
+      rewrite Nat.add_0_r, app_nth2 by lia. rewrite Nat.sub_diag. reflexivity. }
+    destruct (define_class reserved (is_sm known (c_bases c)) (c_body c)) as [ns|e] eqn:D.
+    + specialize (IH (S idx) (known ++ [is_sm known (c_bases c)])
+                     (dicts ++ [ns ++ map (fun k => (k, MOther)) (c_extra c)])).
+      rewrite app_length in IH. cbn [List.length] in IH.
+      destruct (define_from reserved (S idx) r _ _) as [ds|[j e]].
+      * destruct IH as [news (E & L & P)].
+        exists ((ns ++ map (fun k => (k, MOther)) (c_extra c)) :: news). split.
+        -- rewrite E, <- app_assoc. reflexivity.
+        -- split; [cbn [List.length]; lia|]. intros i c' H. destruct i as [|i]; cbn [nth_error] in H |- *.
+           ++ inversion H; subst c'. exists ns. rewrite F0. split; [exact D | reflexivity].
+           ++ destruct (P i c' H) as [ns' [D' N']]. exists ns'.
+              replace (List.length known + S i) with (List.length known + 1 + i) by lia. auto.
+      * destruct IH as [i [c' (E & N & D' & P)]]. exists (S i), c'.
+        split; [lia|]. split; [exact N|]. split.
+        -- replace (List.length known + S i) with (List.length known + 1 + i) by lia. exact D'.
+        -- intros i' c'' Hi H. destruct i' as [|i']; cbn [nth_error] in H.
+           ++ inversion H; subst c''. exists ns. rewrite F0. exact D.
+           ++ replace (List.length known + S i') with (List.length known + 1 + i') by lia.
+              apply (P i' c''); [lia | exact H].
+    + exists 0, c. split; [lia|]. split; [reflexivity|]. split; [rewrite F0; exact D|].
+      intros i' c' Hi. lia.
+Qed.
+
+(* a module is accepted iff every class statement is, each judged with
+   issubclass(owner, StateMachine) computed from its bases; otherwise the
+   first failing class statement raises *)
+Theorem define_all_spec reserved cs :
+  match define_all reserved cs with
+  | Ok ds =>
+      List.length ds = List.length cs /\
+      forall i c, nth_error cs i = Some c ->
+        exists ns, define_class reserved (nth i (sm_flags cs) false) (c_body c) = Ok ns /\
+                   nth_error ds i = Some (ns ++ map (fun k => (k, MOther)) (c_extra c))
+  | Err (j, e) =>
+      exists c, nth_error cs j = Some c /\
+        define_class reserved (nth j (sm_flags cs) false) (c_body c) = Err e /\
+        forall i' c', i' < j -> nth_error cs i' = Some c' ->
+          exists ns, define_class reserved (nth i' (sm_flags cs) false) (c_body c') = Ok ns
+  end.
+Proof.
+  unfold define_all, sm_flags. pose proof (define_from_spec reserved cs 0 [] []) as S.
+  destruct (define_from reserved 0 cs [] []) as [ds|[j e]]; cbn [List.length app Nat.add] in S.
+  - destruct S as [news (E & L & P)]. subst ds. split; [exact L | exact P].
+  - destruct S as [i [c (E & N & D & P)]]. subst j. exists c. auto.
 Qed.
